@@ -84,7 +84,7 @@ func withCache(o memsys.GenOpts) memsys.GenOpts { o.NeedWB = true; return o }
 // zero-latency hang, which would end runs early (fewer states), so write-through
 // latencies start at 1 here.
 func genOpts16(steered *int) memsys.GenOpts {
-	return memsys.GenOpts{WTMinLatency: 1, Steered: steered}
+	return memsys.GenOpts{Steered: steered}
 }
 
 type dirOp struct {
